@@ -14,8 +14,8 @@ Atoms == {<<47, 98, 101, 103, 105, 110>>, <<47, 101, 110, 100>>, <<47, 105, 110,
 BeginA2ml == {<<47, 98, 101, 103, 105, 110, 32, 65, 50, 77, 76>>}
 NonAscii == {<<195, 169>>}          \* U+00E9 as UTF-8 (the tokenizer works on the bytes of a valid UTF-8 string)
 Bytes(S) == {<<c>> : c \in S}
-\* sp lf cr tab / * " \ ' a x F 0 1 - + . [ _ ,
-Full == Bytes({32, 10, 13, 9, 47, 42, 34, 92, 39, 97, 120, 70, 48, 49, 45, 43, 46, 91, 95, 44}) \cup Atoms \cup NonAscii \cup BeginA2ml
+\* sp lf cr tab ff / * " \ ' a x F 0 1 - + . [ _ ,
+Full == Bytes({32, 10, 13, 9, 12, 47, 42, 34, 92, 39, 97, 120, 70, 48, 49, 45, 43, 46, 91, 95, 44}) \cup Atoms \cup NonAscii \cup BeginA2ml
 Crit == Bytes({32, 10, 13, 47, 42, 34, 92, 97, 48}) \cup Atoms \cup BeginA2ml
 
 \* token soups: whole tokens (with a trailing blank) in any order
